@@ -214,6 +214,7 @@ def run(ctx):
     # ---- R9 the JSON text is what serde_json wrote / what the user supplied
     json_text_rule(ctx, "C06.R9", [ctx.cli, ctx.wasm, core])
     whole_stdin_rule(ctx, "C06.R11", ctx.cli)
+    from_json_number_rule(ctx, "C06.R7", core)
     heap_allocation_rule(ctx, "C06.R12", core)
 
     # ---- R5 reserved function-object key is one literal (shared with C05.L8)
@@ -393,6 +394,23 @@ def to_json_number_rule(ctx, rid, core):
                     conds += [y["name"] for y in H.walk(x["cond"]) if H.kind(y) == "MethodCall"] + [y["op"] for y in H.walk(x["cond"]) if H.kind(y) == "Binary" and y["op"] in ("Eq", "Ne", "Lt", "Le", "Gt", "Ge")]
         other = sorted(set(c for c in conds if c not in FIN))
         ctx.inst(rid, "to_json#Number", not other, "conditions that select how a number is written: %s (anything but a finiteness test sends some finite numbers - subnormals, large magnitudes - down a different path)" % (sorted(set(conds)) or "none"), H.loc(num_arms[0]["body"]))
+
+
+def from_json_number_rule(ctx, rid, core):
+    """a JSON number becomes the double nearest to it through serde_json's as_f64, whatever its spelling (shared with C15 / C16)"""
+    fj = core.hir.get("blots_core::values::SerializableValue::from_json")
+    if fj is None or fj.get("body") is None:
+        ctx.inst(rid, "from_json#Number", None, "from_json not found", None)
+        return
+    arms = [a for m in H.walk(fj["body"]) if H.kind(m) == "Match" for a in m["arms"] if any(v.endswith("serde_json::Value::Number") or v.endswith("value::Value::Number") for v in H.pat_variants(a["pat"]))]
+    if not arms:
+        ctx.inst(rid, "from_json#Number", None, "no Number arm found in from_json", H.loc(fj["body"]))
+        return
+    names = sorted({x["name"] for a in arms for x in H.walk(a["body"]) if H.kind(x) == "MethodCall"})
+    detour = [n for n in names if n in ("as_i64", "as_u64", "as_i128", "as_u128", "is_i64", "is_u64", "is_f64", "as_str", "to_string")]
+    casts = [H.loc(x) for a in arms for x in H.walk(a["body"]) if H.kind(x) == "Cast"]
+    ctx.inst(rid, "from_json#Number", False if (detour or casts) else ("as_f64" in names or None),
+             "the Number arm converts through %s%s" % (names, "" if not (detour or casts) else ": an integer detour (%s%s) has no answer for part of the numbers a JSON document can hold (as_i64 is None from 2^63 on) or rounds twice" % (detour, ", casts at %s" % casts if casts else "")), H.loc(arms[0]["body"]))
 
 
 def whole_stdin_rule(ctx, rid, cli, declare=True):
